@@ -112,6 +112,11 @@ Definition root_ent_ok (s : StateModel.state) : Prop :=
     tchg (s_chg (e_l e1)) = false /\ tchg (s_chg (e_r e1)) = false /\
     set_mem 0%nat (cset s) = false /\ set_mem 1%nat (cset s) = false.
 
+(* a side that has been refreshed since its entry last changed shows an existing object with its path, or a gone one *)
+Definition ShapeS (x : sidest) : Prop := (s_ex x = ExExists /\ s_path x <> None) \/ ex_in_gone (s_ex x) = true.
+Definition Seen (w : world) (e : nat) (en : StateModel.entry) (sd : bool) : Prop :=
+  s_oid (gs en sd) <> None -> is_discarded (e_ign en) = false -> maxchg en <= x_lg (getx w e sd) -> ShapeS (gs en sd).
+
 Record InvP (evl : evlist) (g : ghost) (w : world) : Prop := {
   i_cfg : w_cfg w = cfg_std 1;
   i_pwf : forall sd, PWF (prov_of w sd);
@@ -121,6 +126,8 @@ Record InvP (evl : evlist) (g : ghost) (w : world) : Prop := {
   i_tape : tape (w_st w) = [];
   i_csc : cs_complete (w_st w);
   i_csb : forall x, set_mem x (cset (w_st w)) = true -> (x < length (ents (w_st w)))%nat;
+  (* ... and exact: only entries with a change flag and an id are pending *)
+  i_cse : forall e en, nth_error (ents (w_st w)) e = Some en -> set_mem e (cset (w_st w)) = true -> flagged en = true;
   i_clk : lastch (w_st w) <= now (w_st w);
   (* a punt moves a stamp one unit past the clock reading of its step; the next step's tick is 1000 units *)
   i_clke : forall e en, nth_error (ents (w_st w)) e = Some en ->
@@ -134,7 +141,8 @@ Record InvP (evl : evlist) (g : ghost) (w : world) : Prop := {
            exists e en, nth_error (ents (w_st w)) e = Some en /\ s_oid (gs en sd) = Some (ostr_k k);
   i_ghost : forall sd k cs, g_get k (g_of g sd) = Some cs ->
             (2 <= k)%nat /\ exists ob r, obj_at w sd k = Some ob /\ cs = ProvModel.o_data ob :: r;
-  i_xlen : forall e sd, (length (ents (w_st w)) <= e)%nat -> getx w e sd = x0
+  i_xlen : forall e sd, (length (ents (w_st w)) <= e)%nat -> getx w e sd = x0;
+  i_seen : forall e en sd, (2 <= e)%nat -> nth_error (ents (w_st w)) e = Some en -> Seen w e en sd
 }.
 
 Definition Inv (g : ghost) (w : world) : Prop := InvP (real_evl w) g w.
@@ -222,6 +230,7 @@ Lemma inv_master evl evl' g g' w w' e en' :
      exists xn', nth_error (ents (w_st w')) x = Some xn' /\ same_but_prio xn xn') ->
   (forall x, x <> e -> set_mem x (cset (w_st w')) = set_mem x (cset (w_st w))) ->
   (flagged en' = true -> set_mem e (cset (w_st w')) = true) ->
+  (set_mem e (cset (w_st w')) = true -> flagged en' = true) ->
   now (w_st w) <= now (w_st w') -> lastch (w_st w') <= now (w_st w') ->
   maxchg en' <= now (w_st w') + 1 -> (forall sd, x_lg (getx w' e sd) <= now (w_st w') + 1) ->
   tape (w_st w') = [] -> IdxJ (w_st w') ->
@@ -237,9 +246,10 @@ Lemma inv_master evl evl' g g' w w' e en' :
   (forall sd k cs, g_get k (g_of g' sd) = Some cs ->
      (2 <= k)%nat /\ exists ob r, obj_at w' sd k = Some ob /\ cs = ProvModel.o_data ob :: r) ->
   EntOk evl' g' w' e en' ->
+  (forall sd, Seen w' e en' sd) ->
   InvP evl' g' w'.
 Proof.
-  intros I Hcfg Hprov He Hen' Hlen Hnew Hoth Hcs Hcse Hnow Hlast Hmax Hlg Htape Hidx Hx Hframe Hcov Hcove Hghost HE.
+  intros I Hcfg Hprov He Hen' Hlen Hnew Hoth Hcs Hcse Hcsx Hnow Hlast Hmax Hlg Htape Hidx Hx Hframe Hcov Hcove Hghost HE Hseen.
   assert (Hold: forall x xn', x <> e -> nth_error (ents (w_st w')) x = Some xn' ->
                 exists xn, nth_error (ents (w_st w)) x = Some xn /\ same_but_prio xn xn').
   { intros x xn' Hne Hx'. destruct (nth_error (ents (w_st w)) x) as [xn|] eqn:Ex.
@@ -259,6 +269,10 @@ Proof.
   - intros x Hm. destruct (Nat.eq_dec x e) as [->|Hne].
     + apply nth_error_Some. congruence.
     + rewrite (Hcs x Hne) in Hm. pose proof (i_csb _ _ _ I x Hm). lia.
+  - intros x xn' Hx' Hm. destruct (Nat.eq_dec x e) as [->|Hne].
+    + assert (xn' = en') by congruence. subst. apply Hcsx. exact Hm.
+    + destruct (Hold x xn' Hne Hx') as (xn & Hxn & S). rewrite (Hcs x Hne) in Hm.
+      rewrite <- (sbp_flagged _ _ S). apply (i_cse _ _ _ I x xn Hxn Hm).
   - exact Hlast.
   - intros x xn' Hx'. destruct (Nat.eq_dec x e) as [->|Hne].
     + assert (xn' = en') by congruence. subst. split; [exact Hmax|exact Hlg].
@@ -281,6 +295,11 @@ Proof.
   - intros x sd Hx'. destruct (Nat.eq_dec x e) as [->|Hne].
     + exfalso. assert (e < length (ents (w_st w')))%nat by (apply nth_error_Some; congruence). lia.
     + rewrite (Hx x sd Hne). apply (i_xlen _ _ _ I). lia.
+  - intros x xn' sd Hx2 Hx'. destruct (Nat.eq_dec x e) as [->|Hne].
+    + assert (xn' = en') by congruence. subst. apply Hseen.
+    + destruct (Hold x xn' Hne Hx') as (xn & Hxn & S). pose proof (i_seen _ _ _ I x xn sd Hx2 Hxn) as X.
+      unfold Seen in *. rewrite <- (sbp_gs _ _ sd S), (Hx x sd Hne), <- (sbp_maxchg _ _ S).
+      destruct S as (_ & _ & S3). rewrite <- S3. exact X.
 Qed.
 
 (* ------------------------------------------------------------------ worlds that differ in the sync state only *)
